@@ -1312,7 +1312,7 @@ def _decide_guard(self, fn, ob, scope):
             for a in fa:
                 inner = a[1] if a[0] == "len" else a
                 opaque = inner[0] in ("call", "icall", "proj", "elem", "aload", "try", "unknown") and not (
-                    getattr(self, "free_inputs", None) and self.free_inputs(a))
+                    getattr(self, "free_inputs", None) and self.free_inputs(a)) and RANK[self.atom_class(fn, a)] >= 2
                 if RANK[self.atom_class(fn, a)] >= 5 or opaque:
                     ob.verdict = UNDECIDED
                     ob.why = "a guard on the same length involves %s, which is not evaluated: %s" % (
@@ -1551,6 +1551,16 @@ def _decide_nowrap(self, fn, ob, scope):
         if lo > -(1 << (bits - 1)):
             ob.verdict, ob.why = PROVED, "operand cannot be the type minimum"
             return ob
+        # -(x as iN) with x an unsigned value of the same width: x == 2^(N-1) becomes iN::MIN, whose negation overflows
+        if a[0] == "cast" and a[1] == "IntToInt":
+            src = an.vtype.get(a[3])
+            if src is not None and tk_unsigned(src) and tk_bits(src) == bits:
+                slo, shi = P.interval_lin(P.lin(a[3]), facts)
+                if shi >= (1 << (bits - 1)):
+                    ob.verdict = VIOLATION
+                    ob.why = ("negation of an unsigned value reinterpreted as signed: for the value %d the operand is the type "
+                              "minimum (panic with overflow checks; values above it change sign)" % (1 << (bits - 1)))
+                    return ob
     ob.verdict, ob.why = UNDECIDED, "operator %s" % op
     return ob
 
